@@ -247,9 +247,9 @@ Fixpoint rebuild (lsb0 : bool) (d new_ : bits) (oldlen : Z) (points : list Z) : 
   end.
 
 Definition ba_replace (lsb0 : bool) (d old new_ : bits) (start stop : option Z) (count : option Z) (ba : bool) : res (bits * Z) :=
-  match count with Some 0 => Ok (d, 0) | _ =>
-  if zlen old =? 0 then Err ValueError else
+  if zlen old =? 0 then Err ValueError else          (* fix D53: the checks come before the count = 0 shortcut *)
   do2 (s, e) <- validate_slice d start stop;
+  match count with Some 0 => Ok (d, 0) | _ =>
   let cnt := match count with None => 0 | Some c => c end in
   do found <- bs_findall lsb0 d old (Some s) (Some e) None ba;
   let points := collect_points found (zlen old) cnt [] in
